@@ -5,6 +5,7 @@ import (
 	"crypto/sha256"
 	"fmt"
 	"go/types"
+	"math"
 	"sort"
 	"strings"
 
@@ -875,3 +876,39 @@ func (ex *Exec) sprint(args Slice, sep string) Str {
 }
 
 var _ = sort.Strings
+
+func init() {
+	f1 := func(name string, f func(float64) float64) {
+		reg("math."+name, func(ex *Exec, fn *ssa.Function, a []Value) Value { return f(a[0].(float64)) })
+	}
+	f2 := func(name string, f func(a, b float64) float64) {
+		reg("math."+name, func(ex *Exec, fn *ssa.Function, a []Value) Value { return f(a[0].(float64), a[1].(float64)) })
+	}
+	f1("Abs", math.Abs)
+	f1("Floor", math.Floor)
+	f1("Ceil", math.Ceil)
+	f1("Sqrt", math.Sqrt)
+	f1("Log", math.Log)
+	f1("Log2", math.Log2)
+	f1("Exp", math.Exp)
+	f1("Trunc", math.Trunc)
+	f1("Round", math.Round)
+	f2("Pow", math.Pow)
+	f2("Max", math.Max)
+	f2("Min", math.Min)
+	f2("Mod", math.Mod)
+	reg("math.IsNaN", func(ex *Exec, fn *ssa.Function, a []Value) Value { return term.Bool(math.IsNaN(a[0].(float64))) })
+	reg("math.IsInf", func(ex *Exec, fn *ssa.Function, a []Value) Value {
+		return term.Bool(math.IsInf(a[0].(float64), int(a[1].(*term.T).Signed())))
+	})
+	reg("math.Inf", func(ex *Exec, fn *ssa.Function, a []Value) Value { return math.Inf(int(a[0].(*term.T).Signed())) })
+	reg("math.NaN", func(ex *Exec, fn *ssa.Function, a []Value) Value { return math.NaN() })
+	reg("math.Float64bits", func(ex *Exec, fn *ssa.Function, a []Value) Value { return u64(math.Float64bits(a[0].(float64))) })
+	reg("math.Float64frombits", func(ex *Exec, fn *ssa.Function, a []Value) Value {
+		t := a[0].(*term.T)
+		if !t.IsConst() {
+			ex.unsupported("Float64frombits of symbolic value")
+		}
+		return math.Float64frombits(t.C)
+	})
+}
